@@ -164,16 +164,24 @@ class Destinations(object):
             # BufferingDestination:
             self._any_added = True
             buffer = self._destinations[0]
-            new_destinations = list(destinations)
+            # Destinations added while the buffer is being handed over (by a
+            # destination, or by another thread) join this list too:
+            new_destinations = self._added = list(destinations)
+            failures = []
             with buffer._lock:
                 # Re-deliver buffered messages before any other sender can
                 # see the new destinations: until then concurrent senders
                 # still find the buffer, wait for its lock and are forwarded
                 # afterwards, so nothing newer overtakes a buffered message.
-                failures = [
-                    (message, self._deliver(message, new_destinations))
-                    for message in buffer.messages
-                ]
+                # (A destination that logs while it is handed the buffered
+                # messages puts its message into the emptied buffer, hence
+                # the loop.)
+                while buffer.messages:
+                    buffered, buffer.messages = buffer.messages, []
+                    for message in buffered:
+                        failures.append(
+                            (message, self._deliver(message, new_destinations))
+                        )
                 # Replace the list in one step, so concurrent senders see
                 # either the buffer or the new destinations, never an empty
                 # list:
@@ -184,7 +192,7 @@ class Destinations(object):
             for message, errors in failures:
                 self._report(message, errors)
         else:
-            self._destinations.extend(destinations)
+            self._added.extend(destinations)
 
     def remove(self, destination):
         """
